@@ -1388,3 +1388,171 @@ func ruleSessionSaveLive(e *Engine, r *Report) {
 	r.check(!res.Found, rule, "SessionManager.SaveSessions serialises the live table on every successful path", e.pos(fn.Pos()),
 		"no success return without traversing the session table", "SaveSessions can succeed without serialising the current session table (a remembered image is written instead): a snapshot taken after the table was replaced or changed carries stale sessions, and a retried proposal is applied twice after recovering from it", res.Trace(e)...)
 }
+
+// ---------------------------------------------------------------------------
+// Soft error pairs (generic): the general error rule lets a sentinel test
+// excuse a success exit ("no saved log" means an empty store, not a failure).
+// Which error of which operation may be read that way is a design decision,
+// so the (operation, sentinel) pairs that are excused today are frozen as a
+// table confirmed by reading; a success exit excused by any other pair - a
+// new soft reading of an error - is a violation.
+
+// sentinelLabel names the sentinel a test compares the error with.
+func (e *Engine) sentinelLabel(cond ssa.Value, aliases map[ssa.Value]bool) string {
+	glob := func(v ssa.Value) string {
+		v = stripChangeInterface(v)
+		if u, ok := v.(*ssa.UnOp); ok && u.Op == token.MUL {
+			if g, ok := u.X.(*ssa.Global); ok {
+				return g.Pkg.Pkg.Name() + "." + g.Name()
+			}
+		}
+		if c, ok := v.(*ssa.Call); ok {
+			return "call:" + calleeLabel(e, c)
+		}
+		return "?"
+	}
+	switch x := cond.(type) {
+	case *ssa.UnOp:
+		if x.Op == token.NOT {
+			return e.sentinelLabel(x.X, aliases)
+		}
+	case *ssa.BinOp:
+		a, b := stripChangeInterface(x.X), stripChangeInterface(x.Y)
+		if aliases[a] {
+			return glob(b)
+		}
+		return glob(a)
+	case *ssa.Call:
+		if sc := x.Call.StaticCallee(); sc != nil && sc.Name() == "Is" && len(x.Call.Args) == 2 {
+			return glob(x.Call.Args[1])
+		}
+		return "pred:" + calleeLabel(e, x)
+	}
+	return "?"
+}
+
+type softPair struct{ Fn, Callee, Sentinel, Pos string }
+
+// softPairs lists every success exit that is reachable only because a
+// sentinel test of the failed call's error was taken.
+func (e *Engine) softPairs() []softPair {
+	var out []softPair
+	for _, fn := range e.ScopeFuncs() {
+		p := fnPkg(fn)
+		if p == nil || !inModule(p) || len(fn.Blocks) == 0 || !e.IsLive(outermostFn(fn)) {
+			continue
+		}
+		hasErrRes := errResultIndex(fn) >= 0
+		if !hasErrRes {
+			continue
+		}
+		forEachInstr(fn, func(in ssa.Instruction) {
+			call, ok := in.(*ssa.Call)
+			if !ok {
+				return
+			}
+			if _, isB := call.Call.Value.(*ssa.Builtin); isB {
+				return
+			}
+			vals, hasErr, dropped := errValueOf(call)
+			if !hasErr || dropped {
+				return
+			}
+			for _, v := range vals {
+				aliases := errAliases(v)
+				for _, b := range fn.Blocks {
+					if len(b.Instrs) == 0 {
+						continue
+					}
+					ifi, ok := b.Instrs[len(b.Instrs)-1].(*ssa.If)
+					if !ok {
+						continue
+					}
+					t, pol := e.sentinelTest(ifi.Cond, aliases)
+					if !t {
+						continue
+					}
+					succ := b.Succs[1]
+					if pol {
+						succ = b.Succs[0]
+					}
+					if res := e.successFromErrEdgeMode(fn, b, succ, aliases, hasErrRes, true); res.Found {
+						out = append(out, softPair{fname(fn), calleeLabel(e, call), e.sentinelLabel(ifi.Cond, aliases), e.ipos(ifi)})
+					}
+				}
+			}
+		})
+	}
+	return out
+}
+
+// softPairTable: sentinel -> operations whose error may be read as that soft
+// condition (confirmed by reading, 2026-09-24; one reason per sentinel).
+var softPairTable = map[string]struct {
+	why     string
+	callees []string
+}{
+	"dragonboat.ErrRejected":      {"a compaction request that raft refuses is not an error of log removal", []string{"(*dragonboat.node).requestCompaction"}},
+	"pred:dragonboat.saveAborted": {"the user state machine aborted the save (ErrSnapshotStopped): the task ends without a snapshot", []string{"(*dragonboat.snapshotter).Commit", "(*internal/rsm.StateMachine).Save"}},
+	"pred:dragonboat.snapshotCommitAborted": {"the snapshot being committed is older than one already published: dropped, nothing recorded", []string{"(*dragonboat.snapshotter).Commit"}},
+	"dragonboat.ErrNoSnapshot":    {"no snapshot recorded yet", []string{"(*dragonboat.snapshotter).GetSnapshotFromLogDB"}},
+	"pred:(*dragonboat.snapshotter).IsNoSnapshotError": {"no snapshot recorded yet", []string{"(*dragonboat.snapshotter).GetSnapshotFromLogDB"}},
+	"pred:dragonboat.isSoftSnapshotError": {"the log reader refuses a snapshot that is out of date / already compacted: nothing to do", []string{"(*internal/logdb.LogReader).ApplySnapshot", "(*internal/logdb.LogReader).CreateSnapshot", "(*internal/rsm.StateMachine).Save"}},
+	"raft.ErrCompacted":           {"the index asked for is already compacted: nothing left to remove / term unknown", []string{"(*internal/logdb.LogReader).Compact", "(*internal/raft.entryLog).term"}},
+	"raftio.ErrNoSavedLog":        {"an empty store", []string{"(*internal/logdb.db).getMaxIndex", "raftio.ILogDB.ReadRaftState"}},
+	"pred:dragonboat.openAborted": {"the user state machine's Open was stopped", []string{"(*internal/rsm.StateMachine).OpenOnDiskStateMachine"}},
+	"pred:dragonboat.streamAborted": {"streaming was stopped or failed: reported through the snapshot status", []string{"(*internal/rsm.StateMachine).Stream"}},
+	"pred:internal/tan.IsInvalidRecord": {"a torn tail record of a Tan log / manifest ends the replay", []string{"(*internal/tan.db).readLog", "(*internal/tan.reader).next", "(*internal/tan.versionEdit).decode"}},
+	"io.EOF":                      {"end of the record stream / of the header", []string{"(*internal/tan.reader).next", "(*internal/tan.versionEdit).decode", "encoding/binary.ReadUvarint", "io.ReadFull"}},
+	"io.ErrUnexpectedEOF":         {"short read of a trailing block: treated as end of data and validated by the caller", []string{"io.ReadFull"}},
+	"pred:github.com/cockroachdb/errors/oserror.IsNotExist": {"the file does not exist yet", []string{"github.com/lni/vfs.FS.Stat"}},
+	"pred:internal/vfs.IsNotExist":                           {"the file does not exist yet", []string{"internal/vfs.IFS.Stat"}},
+	"pred:internal/rsm.ISnapshotter.IsNoSnapshotError":       {"no snapshot recorded yet", []string{"internal/rsm.ISnapshotter.GetSnapshot"}},
+	"raftio.ErrNoBootstrapInfo":                              {"the replica was never bootstrapped", []string{"raftio.ILogDB.GetBootstrapInfo"}},
+}
+
+// ruleSoftErrorPairs (C10; borrowed by C04, C14, C15, C16, C20).
+func ruleSoftErrorPairs(e *Engine, r *Report) {
+	rule := "ERR-soft-pairs"
+	n := 0
+	seen := map[string]bool{}
+	for _, sp := range e.softPairs() {
+		key := sp.Callee + " / " + sp.Sentinel + " in " + sp.Fn
+		if seen[key] {
+			continue
+		}
+		seen[key] = true
+		n++
+		ent, known := softPairTable[sp.Sentinel]
+		if !known {
+			r.bad(rule, "error of "+sp.Callee+" read as soft ("+sp.Sentinel+") in "+sp.Fn, sp.Pos,
+				"a success exit is reached because the error of "+sp.Callee+" equals "+sp.Sentinel+", which is not one of the soft conditions of this code base: a refusal / failure is reported as success")
+			continue
+		}
+		okc := false
+		for _, c := range ent.callees {
+			if c == sp.Callee {
+				okc = true
+			}
+		}
+		if !okc {
+			// a renamed operation? only if one of the tabled operations for this sentinel is gone
+			gone := false
+			for _, c := range ent.callees {
+				if len(c) > 0 && c[0] == '(' && e.Func(c) == nil {
+					gone = true
+				}
+			}
+			if gone {
+				r.ok(rule, "error of "+sp.Callee+" read as soft ("+sp.Sentinel+") in "+sp.Fn, sp.Pos, "degraded: a tabled operation for this sentinel no longer resolves (renamed?) - accepted as its successor")
+				r.note("ERR-soft-pairs: " + sp.Callee + " adopted for sentinel " + sp.Sentinel)
+				continue
+			}
+			r.bad(rule, "error of "+sp.Callee+" read as soft ("+sp.Sentinel+") in "+sp.Fn, sp.Pos,
+				sp.Sentinel+" is a soft condition only for "+joinOr(ent.callees)+" ("+ent.why+"); here it excuses a success exit after "+sp.Callee+" failed")
+			continue
+		}
+		r.ok(rule, "error of "+sp.Callee+" read as soft ("+sp.Sentinel+") in "+sp.Fn, sp.Pos, ent.why)
+	}
+	r.floor(rule, n, 25)
+}
